@@ -393,6 +393,10 @@ DoViewTool(ev) ==
                  \o Chk({ev.names[i] : i \in DOMAIN ev.names} = DOMAIN DurableView(ev.f), "C09:view-tool-names",
                         DOMAIN DurableView(ev.f), ev.names))
 
+\* concurrent key-only readers on cold caches: every call in flight is key-only
+DoBurst(ev) == Stay /\ Report(Chk(ev.io.vr = 0, "C19:value-bytes-read(concurrent key-only readers)", 0, ev.io.vr)
+                              \o ReadPathChk(ev))
+
 DoObs(ev) == Stay /\ Report(ObsChk(ev))
 DoDecode(ev) == Stay /\ Report(DecodeChk(ev))
 
@@ -444,6 +448,7 @@ Step ==
        [] ev.e = "Crash" -> DoCrash(ev)
        [] ev.e = "DropFile" -> DoDropFile(ev)
        [] ev.e = "Obs" -> DoObs(ev)
+       [] ev.e = "Burst" -> DoBurst(ev)
        [] ev.e = "ViewTool" -> DoViewTool(ev)
        [] ev.e = "Decode" -> DoDecode(ev)
        [] ev.e = "Panic" -> DoPanic(ev)
